@@ -439,6 +439,7 @@ func (s *faultySource) ReadBlock(off uint64, size int) ([]byte, error) {
 		}
 	}
 	s.bytes += int64(len(out))
+	sourceBytes += int64(len(out))
 	return out, nil
 }
 
@@ -454,6 +455,7 @@ func (s *countingBytes) ReadBlock(off uint64, sz int) ([]byte, error) {
 	s.calls++
 	b, err := s.ByteBlockSource.ReadBlock(off, sz)
 	s.bytes += int64(len(b))
+	sourceBytes += int64(len(b))
 	return b, err
 }
 
@@ -464,6 +466,12 @@ var maxCallAlloc uint64
 var maxCallAllocLabel string
 
 var allocSample = []metrics.Sample{{Name: "/gc/heap/allocs:bytes"}}
+
+// deliveredBytes: bytes handed to the library by the storage seam so far
+// (descriptor reads of the simulated disk + the harness' own block sources).
+var sourceBytes int64
+
+func deliveredBytes() int64 { return simrt.ReadBytes + sourceBytes }
 
 func allocBytes() uint64 {
 	metrics.Read(allocSample)
@@ -486,9 +494,20 @@ func drainCap(next func() (bool, error)) (int, error) {
 func readWorkload(tab reftable.Table, hs int, names []string) (what, site string) {
 	run := func(label string, f func() error) bool {
 		var err error
-		a0 := allocBytes()
+		a0, r0 := allocBytes(), deliveredBytes()
 		defer func() {
-			if d := allocBytes() - a0; d > maxCallAlloc {
+			// what the call allocated, net of (a multiple of) the bytes the
+			// storage seam delivered to it meanwhile: a file-backed source
+			// allocates every block it reads, so a call that legitimately
+			// reads much also allocates much in total; what must stay small
+			// is allocation that no read accounts for
+			d := allocBytes() - a0
+			if rd := uint64(deliveredBytes()-r0) * 8; rd < d {
+				d -= rd
+			} else {
+				d = 0
+			}
+			if d > maxCallAlloc {
 				maxCallAlloc = d
 				maxCallAllocLabel = label
 			}
@@ -638,7 +657,9 @@ func ExecuteCorrupt(spec *RunSpec, opts RunOpts) *RunResult {
 			}
 			closeQuiet(st)
 		})
+		rc0, rb0 := simrt.ReadCalls, simrt.ReadBytes
 		sim.RunPhase([]*simrt.Task{t}, simrt.Sequential{})
+		calls, rbytes = int(simrt.ReadCalls-rc0), simrt.ReadBytes-rb0
 		if t.Panic != nil {
 			viol("panic", "harness", fmt.Sprint(t.Panic))
 		}
@@ -688,7 +709,11 @@ func ExecuteCorrupt(spec *RunSpec, opts RunOpts) *RunResult {
 	}
 	sz := int64(len(dam)) + 1
 	if len(res.Violations) == 0 {
-		if int64(calls) > 5000+sz*20 || rbytes > (1<<22)+sz*20000 {
+		// a read returns at most the rest of the file, so the byte budget
+		// follows from the call budget (a separate, tighter byte budget
+		// flagged a terminating scan of a table whose declared block size
+		// exceeded the file: every block read returned the whole file)
+		if callBudget := 5000 + sz*20; int64(calls) > callBudget || rbytes > callBudget*sz {
 			viol("read-budget", "calls", fmt.Sprintf("%d ReadBlock calls returning %d bytes for a %d-byte table", calls, rbytes, len(dam)))
 		} else if maxCallAlloc > (64<<20)+uint64(sz)*1000 {
 			viol("allocation", maxCallAllocLabel, fmt.Sprintf("a single %s call allocated %d bytes while reading a %d-byte table", maxCallAllocLabel, maxCallAlloc, len(dam)))
